@@ -88,6 +88,8 @@ def _case(rng, fn="MapReduce", workers=2, noopt=False, items=(), gpanic=-1, rtak
 # origin tag, so each is written by at most one mapper write per case (the encoder maps it back to that write)
 RAW = [0, 1, 2, 3]
 TYPED_NIL_ERRS = [1, 2, 3]      # 1 nil *T, 2 nil slice type, 3 non-nil *T  (0 = untyped nil = cancelnil)
+CTX_ERRS = [4, 5, 6, 7]         # context.Canceled, context.DeadlineExceeded themselves, errors wrapping them (%w): a mapper's
+                                # own per-item timeout; the call must return THAT error value although its own context is fine
 
 
 def _spice(rng, c):
@@ -117,6 +119,8 @@ def _spice(rng, c):
         for a in it["acts"]:
             if a["op"] == "cancel" and rng.random() < 0.3:
                 a["k"] = rng.choice(TYPED_NIL_ERRS)
+            elif a["op"] == "cancel" and rng.random() < 0.3:
+                a["k"] = rng.choice(CTX_ERRS if c["ctx"] == "none" else [4, 6, 7])
     return c
 
 
@@ -145,8 +149,11 @@ def gen_clean(rng, tier, big=False):
     tot = _total_writes(items)
     rtake = -1 if rng.random() < 0.65 else rng.randint(0, tot + 1)
     rafter = [] if fn == "MapReduceVoid" else [_w(7 + j) for j in range(rng.choice([0, 1, 1, 1, 2]))]
-    return _case(rng, fn=fn, workers=workers, noopt=noopt, items=items, rtake=rtake, rafter=rafter,
-                 cls="big" if big else "clean")
+    c = _case(rng, fn=fn, workers=workers, noopt=noopt, items=items, rtake=rtake, rafter=rafter,
+              cls="big" if big else "clean")
+    # "writing twice panics in the caller" - also when the reducer swallows every panic inside itself
+    c["rrecover"] = rng.random() < 0.5
+    return c
 
 
 def gen_cancel(rng, tier, big=False):
@@ -347,6 +354,17 @@ def gen_panic_one_worker(rng, tier):
     return _case(rng, fn=fn, workers=workers, items=items, rtake=-1, rafter=[], cls="panic1")
 
 
+def gen_rgate(rng, tier):
+    """context done AFTER the mapping stage has exited while the reducer is still running: the reducer drains the pipe
+    (so every mapper and the dispatcher are gone), then waits at a gate; the driver cancels the context; the reducer
+    only goes on once the call has returned: (nil, context.DeadlineExceeded), promptly (else: hang)"""
+    n = rng.randint(0, 5)
+    fn = rng.choice(["MapReduce", "MapReduce", "MapReduceChan", "MapReduceVoid"])
+    items = [_writes(rng, 2) for _ in range(n)]
+    rafter = [{"op": "ctxwaitret"}] + ([_w(7)] if fn != "MapReduceVoid" and rng.random() < 0.5 else [])
+    return _case(rng, fn=fn, workers=_workers(rng), items=items, rtake=-1, rafter=rafter, ctx="rgate", cls="rgate")
+
+
 def gen_ae(rng, tier):
     """direct stream on errorx.AtomicError: Set of nil / typed nils / pointer / value errors, Load in between"""
     ops = []
@@ -515,6 +533,8 @@ def _generate(rng, tier, n):
         elif r < 0.895:
             c = gen_panic_one_worker(rng, tier)
         elif r < 0.91:
+            c = gen_rgate(rng, tier)
+        elif r < 0.92:
             c = gen_ae(rng, tier)
         elif r < 0.94:
             c = gen_clean(rng, tier, big=True) if rng.random() < 0.5 else gen_cancel(rng, tier, big=True)
@@ -603,6 +623,8 @@ def _ev(e):
         return "EGR"
     if k == "rpx":
         return "ERPX"
+    if k == "rg":
+        return "ERG"
     if k == "px":
         return "EPX %s" % cnat(e[1])
     raise ValueError(k)
@@ -663,7 +685,13 @@ def encode(case, obs):
     obs = dict(obs, trace=_untag(case, obs["trace"]))
     small = (len(case["items"]) <= 6 and _eff_workers(case) <= 3 and
              sum(len(i["acts"]) for i in case["items"]) <= 24)
-    ctx = {"none": 0, "pre": 1, "live": 2, "gate": 3}[case["ctx"]]
+    ctx = {"none": 0, "pre": 1, "live": 2, "gate": 3, "rgate": 4}[case["ctx"]]
+    if ctx == 4:
+        small = False          # the reducer's gate is not in the LTS: spec_ok only
+    out = obs["outcome"]
+    if (out.get("kind") == "err" and out.get("e") == -2 and ctx == 0
+            and any(a["op"] == "cancel" and a["k"] == 5 for it in case["items"] for a in it["acts"])):
+        obs = dict(obs, outcome={"kind": "err", "e": 5})     # a mapper cancelled with context.DeadlineExceeded itself
     g1 = case.get("gate1", 0)
     gate = "None" if g1 <= 0 else "(Some %s)" % cnat(g1 - 1)
     aeops = clist([_aeop(a) for a in case.get("aeops", [])])
